@@ -507,7 +507,9 @@ def r07_4(run):
     run.ob('R07.4', upp, upp.node, 'update_path rebuilds the path from router_from_id of each hop', ok, slot='update_path', message='update_path no longer rebuilds self.path from the hops')
     rf = TU(run, 'router_from_id')
     h = [n for n in walk_unit(rf) if isinstance(n, ast.ExceptHandler)]
-    ok = bool(h) and any(isinstance(n, ast.Call) and dotted(n.func) == 'Router' for n in walk_unit(rf))
+    # (the miss is noticed by `except KeyError` or by a membership test on the relay table)
+    miss = bool(h) or any(isinstance(n, ast.Compare) and len(n.ops) == 1 and isinstance(n.ops[0], (ast.In, ast.NotIn)) and dotted(n.comparators[0]) == 'self.routers' for n in walk_unit(rf))
+    ok = miss and any(isinstance(n, ast.Call) and dotted(n.func) == 'Router' for n in walk_unit(rf))
     run.ob('R07.4', rf, rf.node, 'relays missing from the consensus get a placeholder router', ok, slot='unknown-relay', message='router_from_id no longer creates a placeholder for unknown relays')
     # a hop is identified by its fingerprint: every lookup in the relay table made by router_from_id is keyed by the leading
     # "$<40 hex>" of the hop text (a slice of the argument that starts at its beginning), never by the nickname after "~" / "="
